@@ -4,7 +4,9 @@ EXTENDS Integers, Sequences, FiniteSets, TLC, Json, SequencesExt
 CONSTANTS Offs,        \* cancellation instants in ms after the call started
           Reps
 Offsets == Offs \cup {-1}     \* -1 = the context is already cancelled when the run is started
-Runners == {"ptrace", "unshare", "container", "container-sa"}
+\* "ptrace-ban": ptrace run whose traced calls are all soft-banned by a slow handler (the cancellation often
+\* arrives while the tracee sits in a seccomp stop and the handler is still deciding)
+Runners == {"ptrace", "ptrace-ban", "unshare", "container", "container-sa"}
 Cases ==
   \* a sleeping program: only the cancellation can end the run
        { [runner |-> r, prog |-> "sleep", at |-> a, nfiles |-> n, destroy |-> FALSE, frozen |-> FALSE, rep |-> k] :
@@ -17,6 +19,9 @@ Cases ==
   \* a program that ends by itself at about the same time (genuine verdict or TLE)
   \cup { [runner |-> r, prog |-> "quick", at |-> a, nfiles |-> 3, destroy |-> FALSE, frozen |-> FALSE, rep |-> k] :
             r \in Runners, a \in Offsets \ {-1}, k \in 1..Reps }
+  \* many cancellations spread over a run that is almost always inside a trap
+  \cup { [runner |-> "ptrace-ban", prog |-> "sleep", at |-> a, nfiles |-> 3, destroy |-> FALSE, frozen |-> FALSE, rep |-> 200 + k] :
+            a \in {5, 7, 11, 13, 17, 19, 23, 29}, k \in 1..(2 * Reps) }
   \* Destroy while a call is in flight (container only)
   \cup { [runner |-> r, prog |-> p, at |-> a, nfiles |-> 3, destroy |-> TRUE, frozen |-> FALSE, rep |-> k] :
             r \in {"container", "container-sa"}, p \in {"sleep", "quick", "open", "ping"}, a \in Offsets \ {-1}, k \in 1..Reps }
